@@ -2,6 +2,7 @@ package main
 
 import (
 	"math/big"
+	"sort"
 
 	"github.com/mmcloughlin/addchain"
 	"github.com/mmcloughlin/addchain/alg/ensemble"
@@ -107,6 +108,44 @@ func genC10(g *Gen) {
 		}
 		c10Case(g, c)
 		g.Count("search-big")
+	}
+	// redundant chains lifted to the top of the machine-word range: 1, 2, …, 2^k followed by 2^k times a
+	// small redundant chain, with the largest element just below / at / above 2^63 and 2^64 (sums of two
+	// elements wrap in 64-bit arithmetic exactly here)
+	for i := 0; i < g.pick(200, 2000); i++ {
+		small := []int64{1}
+		seenS := map[int64]bool{1: true}
+		n := 5 + g.R.Intn(9)
+		for tries := 0; len(small) < n && tries < 200; tries++ {
+			a, b := small[g.R.Intn(len(small))], small[g.R.Intn(len(small))]
+			if g.R.Intn(3) == 0 {
+				a = small[len(small)-1]
+			}
+			if v := a + b; !seenS[v] {
+				seenS[v] = true
+				small = append(small, v)
+			}
+		}
+		sort.Slice(small, func(x, y int) bool { return small[x] < small[y] })
+		maxS := small[len(small)-1]
+		bl := 0
+		for v := maxS; v > 0; v >>= 1 {
+			bl++
+		}
+		top := []int{62, 63, 64, 65}[g.R.Intn(4)] // bit length of the largest element
+		k := top - bl
+		if k < 1 {
+			continue
+		}
+		c := addchain.Chain{}
+		for j := 0; j < k; j++ {
+			c = append(c, new(big.Int).Lsh(big.NewInt(1), uint(j)))
+		}
+		for _, v := range small {
+			c = append(c, new(big.Int).Lsh(big.NewInt(v), uint(k)))
+		}
+		c10Case(g, c)
+		g.Count("word-top")
 	}
 	// a few invalid inputs (the property says nothing about them; correspondence only)
 	for i := 0; i < 200; i++ {
